@@ -152,8 +152,7 @@ func runC13(c *core.Ctx) {
 		c.Min("C13-R2", k, 1, "fetchLogsInBatches call in "+short(fnSpec))
 		if f := fn(c, "C13-R2", fnSpec); f != nil {
 			for _, s := range callsIn(f, ecN+"ExecutionClient.fetchLogsInBatches") {
-				a := c.E.Analyze(s.Fn)
-				to := a.D.D(s.Instr.Common().Args[3]).String()
+				to := s.Arg(c, 3).String()
 				c.Decide(strings.HasSuffix(to, " - p0.followDistance)"), "C13-R2", short(fnSpec)+"|upper bound = head − followDistance", c.P.Pos(s.Instr.Pos()), clip(to), "the fetch upper bound is "+clip(to)+", not head − followDistance")
 			}
 		}
